@@ -93,7 +93,7 @@ PlyHeader(m, fmt, extra) ==
     \o (IF extra = "edge" THEN << TL(<<"element", "edge", "1">>), TL(<<"property", "int", "x">>),
                                   TL(<<"property", "list", "uchar", "double", "w">>) >> ELSE << >>)
     \o << TL(<<"element", "face", T(Len(m.faces))>>),
-          TL(<<"property", "list", IF extra = "biglist" THEN "uint" ELSE "uchar", "int", "vertex_index">>) >>
+          TL(<<"property", "list", IF extra = "biglist" THEN "uint" ELSE IF extra = "signedlist" THEN "int" ELSE "uchar", "int", "vertex_index">>) >>
     \o (IF extra = "tail" THEN << TL(<<"element", "tail", "0">>), TL(<<"property", "int", "q">>) >> ELSE << >>)
     \* a last element without any property: its rows occupy no bytes at all (not claimed to be a valid file)
     \o (IF extra = "noprops" THEN << TL(<<"element", "pad", "2">>) >> ELSE << >>)
@@ -111,7 +111,7 @@ PlybFile(m, extra, be) ==
     \o (IF extra = "edge" THEN <<BL(<<F("i32" \o e, "7"), F("u8", "2"), F("f64" \o e, "0.5"), F("f64" \o e, "0.25")>>)>>
         ELSE << >>)
     \o [i \in 1..Len(m.faces) |->
-          BL(<<F(IF extra = "biglist" THEN "u32" \o e ELSE "u8", T(Len(m.faces[i])))>>
+          BL(<<F(IF extra = "biglist" THEN "u32" \o e ELSE IF extra = "signedlist" THEN "i32" \o e ELSE "u8", T(Len(m.faces[i])))>>
              \o [k \in 1..Len(m.faces[i]) |-> F("i32" \o e, T(m.faces[i][k]))])]
 
 \* ---------------------------------------------------------------- segment CSV (2-D: axis 1, 2 of two vertices)
@@ -180,9 +180,9 @@ Variants ==
       [] Fmt = "stlb" -> { [mesh |-> m, var |-> IF s THEN "solid-header" ELSE "zero-header", lines |-> StlbFile(m, s)] :
                               m \in TriMeshes, s \in BOOLEAN }
       [] Fmt = "plya" -> { [mesh |-> m, var |-> x, lines |-> PlyaFile(m, x)] :
-                              m \in PlyMeshes, x \in {"plain", "comment", "edge", "tail", "biglist"} \cup (IF OnlyValid THEN {} ELSE {"noprops"}) }
+                              m \in PlyMeshes, x \in {"plain", "comment", "edge", "tail", "biglist", "signedlist"} \cup (IF OnlyValid THEN {} ELSE {"noprops"}) }
       [] Fmt = "plyb" -> { [mesh |-> m, var |-> x \o (IF b THEN "-be" ELSE "-le"), lines |-> PlybFile(m, x, b)] :
-                              m \in PlyMeshes, x \in {"plain", "edge", "tail", "biglist"} \cup (IF OnlyValid THEN {} ELSE {"noprops"}), b \in BOOLEAN }
+                              m \in PlyMeshes, x \in {"plain", "edge", "tail", "biglist", "signedlist"} \cup (IF OnlyValid THEN {} ELSE {"noprops"}), b \in BOOLEAN }
       [] Fmt = "csv"  -> { [mesh |-> m, var |-> "plain", lines |-> CsvFile(m)] : m \in TriMeshes }
 
 \* ---------------------------------------------------------------- faults
